@@ -391,11 +391,11 @@ func TestRecursive(t *testing.T) {
 	r := vf.Start(t, prop, "recursive")
 	ref := func(n string) *j5sgen.Type { return &j5sgen.Type{Kind: "object", Ref: &j5sgen.Ref{Name: n}} }
 	shapes := map[string][]*j5sgen.Decl{
-		"self": {{Object: &j5sgen.Object{Name: "Node", Fields: []*j5sgen.Field{{Name: "label", Type: &j5sgen.Type{Kind: "string"}}, {Name: "next", Type: ref("Node")}}}}},
+		"self":       {{Object: &j5sgen.Object{Name: "Node", Fields: []*j5sgen.Field{{Name: "label", Type: &j5sgen.Type{Kind: "string"}}, {Name: "next", Type: ref("Node")}}}}},
 		"self-array": {{Object: &j5sgen.Object{Name: "Node", Fields: []*j5sgen.Field{{Name: "kids", Type: &j5sgen.Type{Kind: "array", Items: ref("Node")}}}}}},
-		"self-map": {{Object: &j5sgen.Object{Name: "Node", Fields: []*j5sgen.Field{{Name: "byName", Type: &j5sgen.Type{Kind: "map", Items: ref("Node")}}}}}},
-		"mutual": {{Object: &j5sgen.Object{Name: "Node", Fields: []*j5sgen.Field{{Name: "other", Type: ref("Other")}}}}, {Object: &j5sgen.Object{Name: "Other", Fields: []*j5sgen.Field{{Name: "back", Type: ref("Node")}}}}},
-		"via-oneof": {{Object: &j5sgen.Object{Name: "Node", Fields: []*j5sgen.Field{{Name: "pick", Type: &j5sgen.Type{Kind: "oneof", Ref: &j5sgen.Ref{Name: "Pick"}}}}}}, {Oneof: &j5sgen.Oneof{Name: "Pick", Options: []*j5sgen.Field{{Name: "node", Type: ref("Node")}}}}},
+		"self-map":   {{Object: &j5sgen.Object{Name: "Node", Fields: []*j5sgen.Field{{Name: "byName", Type: &j5sgen.Type{Kind: "map", Items: ref("Node")}}}}}},
+		"mutual":     {{Object: &j5sgen.Object{Name: "Node", Fields: []*j5sgen.Field{{Name: "other", Type: ref("Other")}}}}, {Object: &j5sgen.Object{Name: "Other", Fields: []*j5sgen.Field{{Name: "back", Type: ref("Node")}}}}},
+		"via-oneof":  {{Object: &j5sgen.Object{Name: "Node", Fields: []*j5sgen.Field{{Name: "pick", Type: &j5sgen.Type{Kind: "oneof", Ref: &j5sgen.Ref{Name: "Pick"}}}}}}, {Oneof: &j5sgen.Oneof{Name: "Pick", Options: []*j5sgen.Field{{Name: "node", Type: ref("Node")}}}}},
 	}
 	var keys []string
 	for k := range shapes {
